@@ -4,8 +4,11 @@ event skeleton of Model/Own.v (coq/Gen/CSkeleton.v).
 For every function of FUNCS the body is tokenised, parsed with a recursive-descent parser for the
 small C subset listed below and executed symbolically: every fallible API call forks the path
 (failure / success), every branch whose condition is not decided by what the path already knows
-forks, the only loop shape accepted (``for (i = 0; i < l; i++)`` with ``l = PyTuple_GET_SIZE(..)``)
-is unrolled 0, 1 and 2 times.  Each complete path is a list of events over SSA pointer values
+forks.  The only loop shape accepted (``for (i = 0; i < <bound>; i++)``, bound a cached or re-read
+PyTuple_GET_SIZE / PyList_GET_SIZE) is NOT unrolled: the paths contain the loop run zero times and the
+iterations that leave it by a return, and a loop schema (events up to the head, events of every complete
+iteration, executed once from the state at the head) goes to ``skeleton_loops``; Coq checks that each
+iteration re-establishes the discipline state of the head (any number of iterations is then safe).  Each complete path is a list of events over SSA pointer values
 (a C variable that is assigned twice gets two numbers; ``a = b`` between pointer variables makes
 both names denote the same value).  Every CPython API name must be in TABLE / SPECIAL
 (returns new | borrowed, steals?, may run Python?); an unknown callee, identifier, statement or
@@ -21,9 +24,9 @@ Event vocabulary: see coq/Model/Own.v.  Conventions of the emission:
   * Py_DECREF / Py_XDECREF / Py_CLEAR of a local: EDecref; of ``self->slot``: EClearSlot;
   * ``self`` and module-level constants (Py_None, interned strings, types) are static: no events;
     ``Py_DECREF(Py_None)`` releases the value the path knows to be ``== Py_None``;
-  * PyTuple_GET_ITEM(t, i) is identified with the tuple ``t`` itself (EUse t): tuples are immutable,
-    so the item lives as long as the tuple is kept alive; any use of such an item other than passing
-    it on (INCREF, DECREF, storing, returning) aborts.  PyTuple_GET_SIZE / GET_ITEM / GetSlice are only
+  * PyTuple_GET_ITEM(t, i) is a borrowed reference of its own (EFetchTuple v t: valid while t is OWNED);
+    PyDict_GetItem / PyList_GET_ITEM give EFetchItem / a pseudo-slot fetch (valid until the next may-call
+    point).  PyTuple_GET_SIZE / GET_ITEM / GetSlice are only
     accepted on values known to be tuples (created by a tuple-returning API, read from a tuple slot,
     or a parameter every extracted call site passes a tuple for);
   * a failed PyDict_New / PyTuple_New whose NULL result the C code dereferences without a test
@@ -510,6 +513,7 @@ class FnCtx:
         self.tparams = []
         self.optional = set()  # ids of parameters that the code NULL-tests
         self.late_params = []  # outputs of PyArg_ParseTuple*: parameters, but not of the C signature
+        self.loops = []        # loop schemas: events up to the head, events of each complete iteration
         self.summaries = summaries
         self.notes = []
 
@@ -892,8 +896,9 @@ class Exec:
         if fname == "PyTuple_GET_ITEM":
             t = vs[0]
             self.require_tuple(fx, t, fname, line)
-            st.events.append(("EUse", t[1]))
-            return [(st, ("item", t[1]))]
+            i = fx.newid(("tupitem", line), "item@%d" % line)
+            st.events.append(("EFetchTuple", i, t[1]))
+            return [(st, ("obj", i))]
         if fname == "PyTuple_SET_ITEM":
             t, _idx, val = vs
             if t[0] == "null" and len(t) > 1:
@@ -1202,32 +1207,38 @@ class Exec:
             if st.names.get(lvar, ("x",))[0] != "unk" or not st.names[lvar][1].startswith(("PyTuple_GET_SIZE", "PyList_GET_SIZE")):
                 raise Abort("loop bound %s at line %d is not a PyTuple_GET_SIZE / PyList_GET_SIZE" % (lvar, line))
             cached_list = st.names[lvar][1].startswith("PyList_GET_SIZE")
-        out = []
-        for n in (0, 1, 2):
-            s0 = st.fork()
-            s0.trail.append("L%d loop: %d iteration(s)" % (line, n))
-            live = [s0]
-            for j in range(n):
-                nxt = []
-                if fresh_bound:
-                    live = [s2 for s in live for s2, _v in self.values(fx, s, cond[3])]
-                for s in live:
-                    if cached_list and j >= 1:
-                        # the list may have shrunk while the previous iteration ran Python code: item j
-                        # is read beyond its current length.  Not expressible in the model: poison the path.
-                        bad = fx.newid(("poison", line), "item-beyond-the-current-length-of-the-list@%d" % line)
-                        s.trail.append("L%d the cached length of a list is used after the body ran" % line)
-                        s.events.append(("EUse", bad))
-                    s.names[ivar] = ("int", j)
-                    for s2, how in self.stmt(fx, s, body, []):
-                        if how[0] == "fall":
-                            nxt.append(s2)
-                        else:
-                            out.append((s2, how))
-                live = nxt
-            for s in live:
-                s.names[ivar] = ("unk", "loopvar@%d" % line)
-                out.append((s, ("fall", None)))
+        if getattr(st, "in_loop", False):
+            raise Abort("nested loop at line %d" % line)
+        # the loop run zero times ...
+        zero = st.fork()
+        zero.trail.append("L%d loop: left (any number of complete iterations before, see the loop schema)" % line)
+        out = [(zero, ("fall", None))]
+        # ... and ONE iteration from the state at the head: the ways through the body that come back to the head
+        # are the schema's iterations (Coq checks that each re-establishes the discipline state of the head, so
+        # that any number of them can run); the ways that leave the function are further paths
+        pre = list(st.events)
+        s0 = st.fork()
+        s0.in_loop = True
+        s0.trail.append("L%d loop: an iteration" % line)
+        live = [s0]
+        if fresh_bound:
+            live = [s2 for s in live for s2, _v in self.values(fx, s, cond[3])]
+        conts = []
+        for s in live:
+            if cached_list:
+                # the list may have shrunk while an earlier iteration ran Python code: the item is read beyond
+                # its current length.  Not expressible in the model: poison the iteration.
+                bad = fx.newid(("poison", line), "item-beyond-the-current-length-of-the-list@%d" % line)
+                s.trail.append("L%d the cached length of a list is used after the body ran" % line)
+                s.events.append(("EUse", bad))
+            s.names[ivar] = ("unk", "loopvar@%d" % line)
+            for s2, how in self.stmt(fx, s, body, []):
+                if how[0] == "fall":
+                    conts.append((s2.events[len(pre):], s2.trail[len(st.trail):]))
+                else:
+                    s2.in_loop = False
+                    out.append((s2, how))
+        fx.loops.append({"line": line, "pre": pre, "conts": conts})
         return out
 
     # ---- one function
@@ -1338,7 +1349,10 @@ def extract(repo=None):
             fns.append((name, fx, paths))
             desc.append({"name": name, "id": FN_ID[name], "notes": fx.notes, "vars": fx.labels, "params": fx.params,
                          "sig_params": [i for i in fx.params if i not in fx.late_params], "tparams": fx.tparams,
-                         "paths": [{"trail": tr, "events": [coq_ev(e) for e in evs]} for evs, tr in paths]})
+                         "paths": [{"trail": tr, "events": [coq_ev(e) for e in evs]} for evs, tr in paths],
+                         "loops": [{"line": lp["line"], "pre": [coq_ev(e) for e in lp["pre"]],
+                                    "iterations": [{"trail": tr, "events": [coq_ev(e) for e in evs]} for evs, tr in lp["conts"]]}
+                                   for lp in fx.loops]})
         else:
             fns.append((name, None, []))
             desc.append({"name": name, "id": FN_ID[name], "table_entry": ex.failed[name], "notes": [], "vars": [],
@@ -1363,6 +1377,17 @@ def extract(repo=None):
         lines.append("")
     lines.append("Definition skeleton : list fn := [%s]." % "; ".join("fn_" + n.strip("_") for n, _f, _p in fns))
     lines.append("")
+    lines.append("(* loop schemas: (parameters of the function, events up to the loop head, the complete iterations) *)")
+    schemas = []
+    for name, fx, _paths in fns:
+        if fx is None:
+            continue
+        for lp in fx.loops:
+            schemas.append("  (* %s, loop at line %d *)\n  ([%s], [%s],\n   [%s])" % (
+                name, lp["line"], "; ".join(map(str, fx.params)), "; ".join(coq_ev(e) for e in lp["pre"]),
+                ";\n    ".join("[%s]" % "; ".join(coq_ev(e) for e in evs) for evs, _tr in lp["conts"])))
+    lines.append("Definition skeleton_loops : list (list var * list ev * list (list ev)) := [\n%s\n]." % ";\n".join(schemas))
+    lines.append("")
     return "\n".join(lines), desc
 
 
@@ -1374,7 +1399,8 @@ def regenerate(repo=None):
         # leave a file that cannot satisfy the proof obligation
         C.write_if_changed(OUT, "(* extraction ABORTED: %s *)\nFrom Coq Require Import List.\nImport ListNotations.\n"
                                 "From ZI Require Import Model.Own.\n"
-                                "Definition skeleton : list fn := [mkFn 0 [] [[]]].\n" % str(e).replace("*)", "* )"))
+                                "Definition skeleton : list fn := [mkFn 0 [] [[]]].\n"
+                                "Definition skeleton_loops : list (list var * list ev * list (list ev)) := [].\n" % str(e).replace("*)", "* )"))
         C.write_if_changed(OUT_JSON, json.dumps({"aborted": str(e)}))
         return ["C skeleton extraction aborted: %s" % e]
     C.write_if_changed(OUT, text)
